@@ -12,7 +12,7 @@ open C06.Gen
 /-! ## the tables regenerated from the source (re-checked by kernel evaluation after every change) -/
 
 /-- every row of the four quote maps is either the byte itself (ASCII, raw-legal at that position per
-    RFC 3986, not `%`) or `%` + two upper-case hex digits that `_HEX_CHAR_MAP` sends back to the byte,
+    RFC 3986, not `%`) or `%` + two upper-case hex digits that denote the byte (and that the decoder, by `hex_table_exact`, sends back to it),
     and contains no character that the parser treats as a delimiter at that position -/
 theorem quote_tables_ok (c : Comp) : mapOK c = true := mapOK_all c
 
